@@ -82,3 +82,39 @@ TYPE_REPS = {
 }
 
 ALL_REPS = [v for t in ("null", "boolean", "integer", "number", "string", "array", "object") for v in TYPE_REPS[t]]
+
+
+# ---------------------------------------------------------------------- the same JSON value in other container classes
+
+class ListSubclass(list):
+    """What e.g. a YAML/TOML loader or an ORM hands over: a list in every respect."""
+
+
+def exotic(x, kind):
+    """The JSON value x rebuilt (recursively, freshly on every call) with containers that are `dict` / `list`
+    instances but behave differently off the beaten path:
+      "defaultdict"      - collections.defaultdict(dict): looking an absent member up with [] INSERTS it
+      "ordered-reversed" - collections.OrderedDict with the members in reverse order: == between two OrderedDicts is
+                           order-sensitive, although they are the same JSON object
+      "ordered"          - collections.OrderedDict in the original order
+      "list-subclass"    - lists as instances of a list subclass
+    Every result is equal (==) to x as far as plain dict/list comparison goes and denotes the same JSON value."""
+    import collections
+    if isinstance(x, dict):
+        items = [(k, exotic(v, kind)) for k, v in x.items()]
+        if kind == "defaultdict":
+            out = collections.defaultdict(dict)
+            out.update(items)
+            return out
+        if kind == "ordered-reversed":
+            return collections.OrderedDict(reversed(items))
+        if kind == "ordered":
+            return collections.OrderedDict(items)
+        return dict(items)
+    if isinstance(x, list):
+        items = [exotic(v, kind) for v in x]
+        return ListSubclass(items) if kind == "list-subclass" else items
+    return x
+
+
+EXOTIC_KINDS = ("defaultdict", "ordered-reversed", "ordered", "list-subclass")
